@@ -42,7 +42,7 @@ def slices(tier):
               levels=[{"grad", "nabla_grad"}, {"grad", "nabla_grad", "div", "nabla_div", "index"} | FIN, FIN], mikinds=("fixed",), chain=True, **kw),
         # chain rule through exp, ln, sin, ...: z vanishes at the point and o is 1 there, with generic gradients and Hessians
         Slice("math", [("z", ()), ("o", ()), F], MATH | {"mul", "grad", "dx", "div"}, 4, idx=(10,), jets=J2, fixed={"z": 0, "o": 1},
-              levels=[MATH | {"mul"}, {"grad", "dx"}, FIN | {"div", "grad", "dx"}, FIN], mikinds=("fixed",), **dict(kw, chain="strict")),
+              levels=[MATH | {"mul", "atan2"}, {"grad", "dx"}, FIN | {"div", "grad", "dx"}, FIN], mikinds=("fixed",), **dict(kw, chain="strict")),
         Slice("math2", [("z", ()), ("o", ())], MATH | {"mul", "grad"}, 4, idx=(10,), jets=J2, fixed={"z": 0, "o": 1},
               levels=[MATH | {"mul"}, {"exp", "ln", "sin", "cos", "mul"}, {"grad"}, FIN], mikinds=("fixed",), **dict(kw, chain="strict")),
         Slice("d3", [F3, P3], {"grad", "div", "curl", "nabla_grad", "dx"}, 2, idx=(10,), maxdim=3, gdim=3, jets=J3, levels=[{"grad", "div", "curl", "nabla_grad", "dx"}, FIN], mikinds=("name", "fixed"), **kw),
